@@ -135,6 +135,8 @@ class Gen:
             t = rtext(r, pool, 1, 8).strip(BL)
             if t == "" or t[0] == '[' or t[0] in s.C:
                 continue
+            if r.random() < 0.12 and not s.python:
+                t = '"' + t           # a quoted text that starts on a continuation line
             return t
         return "w"
 
@@ -158,6 +160,7 @@ def random_file(r, maxlines, opt="none", bad_rate=0.0, single_line=False, commen
     abs_ = []
     bad_at = r.randrange(n) if r.random() < bad_rate else -1
     prev = None
+    used_secs = []
     pc = 0.45 if comment_heavy else 0.2
     while len(abs_) < n:
         if len(abs_) == bad_at:
@@ -179,6 +182,9 @@ def random_file(r, maxlines, opt="none", bad_rate=0.0, single_line=False, commen
             name = rtext(r, [c for c in g.secpool if c != "\t"], 1, 5).strip(BL) or "s"
             if join:
                 name = r.choice(["A", "B"])
+            elif used_secs and r.random() < 0.5:
+                name = r.choice(used_secs)          # re-open an earlier section
+            used_secs.append(name)
             l = line("header", ind=rblanks(r), key=name, tw=rblanks(r))
         elif g.cls == "NONE":
             l = line("keyonly", ind=rblanks(r), key=g.key(), tw=rblanks(r))
